@@ -24,7 +24,7 @@ OUTCOMES_NOT_RUN = {"SKIP", "SKIP_UNCHANGED", "SKIP_PREVIOUS_FAILED", "PERSISTEN
 
 def gen_spec(rng, *, nt=(2, 6), marks=(), behs=("ok",), after_p=0.3, nomods=(1, 3), prodless_p=0.15,
              multi_prod_p=0.25, dens=0.5, user_markers=False, styles=("default", "annotated", "kwargs", "return"),
-             after_needs_prods=False, link_p=0.0, dirprod_p=0.0, hashed_p=0.0, bag_p=0.0, subdir_p=0.0):
+             after_needs_prods=False, marks_below_p=0.0, link_p=0.0, dirprod_p=0.0, hashed_p=0.0, bag_p=0.0, subdir_p=0.0):
     n = rng.randint(*nt)
     nmods = rng.randint(*nomods)
     tasks = []
@@ -66,6 +66,8 @@ def gen_spec(rng, *, nt=(2, 6), marks=(), behs=("ok",), after_p=0.3, nomods=(1, 
         if b == "omit":
             b = f"omit:{rng.randrange(len(prods))}" if prods else "early"
         t["beh"] = b
+        if marks_below_p and t["marks"] and rng.random() < marks_below_p:
+            t["marks_below"] = True
         if t["style"] == "return" and (b not in ("ok", "early") or not prods):
             t["style"] = "default"
         tasks.append(t)
